@@ -14,11 +14,39 @@ def ts_for(k):
     return (TS % (1 + (sec // 86400) % 28, (sec // 3600) % 24, (sec // 60) % 60, sec % 60)).encode()
 
 
+# the head of a dated line in other supported notations (the k-th instant as above); every one starts the line, so a
+# block boundary can fall inside any part of the timestamp.  NOTATION_TSLEN = bytes up to the end of the timestamp.
+NOTATIONS = ["iso", "rfc3339", "bracket", "epoch", "syslog_year", "level"]
+MON = ["Jan", "Feb", "Mar", "Apr", "May", "Jun", "Jul", "Aug", "Sep", "Oct", "Nov", "Dec"]
+
+
+def ts_head(k, notation="iso"):
+    d, h, m, s_ = 1 + (k // 86400) % 28, (k // 3600) % 24, (k // 60) % 60, k % 60
+    if notation == "iso":
+        return ts_for(k)
+    if notation == "rfc3339":
+        return b"2024-01-%02dT%02d:%02d:%02d.%03d+00:00" % (d, h, m, s_, k % 1000)
+    if notation == "bracket":
+        return b"[2024-01-%02d %02d:%02d:%02d.%03d +0000]" % (d, h, m, s_, k % 1000)
+    if notation == "epoch":
+        return b"%d" % (1704067200 + k)
+    if notation == "syslog_year":
+        return b"2024 Jan %2d %02d:%02d:%02d host app:" % (d, h, m, s_)
+    if notation == "level":
+        return b"INFO 2024-01-%02d %02d:%02d:%02d" % (d, h, m, s_)
+    raise ValueError(notation)
+
+
+def notation_tslen(notation):
+    return len(ts_head(86400 * 9 + 3600 * 11 + 61, notation))
+
+
 class Layout:
     """A concrete file: list of lines (bytes incl. newline except possibly the last), which are dated."""
 
     def __init__(self, lines, dated):
         self.lines, self.dated = lines, dated
+        self.tslen = 19          # bytes of a dated line up to the end of its timestamp
         self.data = b"".join(lines)
         self.beg = []
         o = 0
@@ -77,12 +105,14 @@ def concretise(kinds, nl, rng, pads=(0, 1, 5, 11), ulens=(0, 1, 2, 7), body=None
     return Layout(lines, [kd == "D" for kd in kinds])
 
 
-def blockzero_predict(layout, B, tslen=19):
+def blockzero_predict(layout, B, tslen=None):
     """'accept' | 'reject' | 'unknown' for the block-zero analysis at block size B.
     Mirror of spec/BlockZero.tla (a transcription of SyslogProcessor::blockzero_analysis*): lines are looked for
     only inside the block in which they start; a line cut by the end of that block is "partial".
     'unknown' marks the one case the specification leaves open (a partial dated line whose timestamp lies
     inside the block: the datetime may or may not be recognised in the fragment)."""
+    if tslen is None:
+        tslen = layout.tslen
     size = layout.size
     n = len(layout.lines)
     s0 = min(B, size)
@@ -167,7 +197,7 @@ def relative_lengths(B):
     return sorted({1, 2, B - 1, B, B + 1, 2 * B - 1, 2 * B, 2 * B + 1, 3 * B + 5} - {0, -1})
 
 
-def e2e_layout(rng, B, nmsgs, final_nl=True, long_lines=False, first_undated=0, crlf=False, safe_head=True):
+def e2e_layout(rng, B, nmsgs, final_nl=True, long_lines=False, first_undated=0, crlf=False, safe_head=True, notation="iso"):
     """A file whose line lengths are chosen relative to block size B (B-1, B, B+1, 2B+-1, many blocks), with
     continuation lines, blank lines, CRLF, NUL and non-UTF-8 bytes."""
     lines, dated = [], []
@@ -180,7 +210,7 @@ def e2e_layout(rng, B, nmsgs, final_nl=True, long_lines=False, first_undated=0, 
         # (each is complete within the first block); now and then they are padded to end exactly on byte 63 / 127
         for j in range(2):
             k += 1
-            ln = ts_for(k) + b" head"
+            ln = ts_head(k, notation) + b" head"
             if rng.random() < 0.4:
                 want = 64 if j == 0 else rng.choice([64, 26])
                 ln += b"." * max(0, want - len(ln) - 1)
@@ -191,7 +221,7 @@ def e2e_layout(rng, B, nmsgs, final_nl=True, long_lines=False, first_undated=0, 
         targets += [2057, 2100, 4113, 70000]
     for m in range(nmsgs):
         k += rng.choice([0, 1, 1, 3, 60])
-        head = ts_for(k) + b" msg=%d " % m
+        head = ts_head(k, notation) + b" msg=%d " % m
         want = rng.choice(targets + [30, 40, 71])
         eol = b"\r\n" if crlf and rng.random() < 0.5 else b"\n"
         if want > len(head) + len(eol):
@@ -214,10 +244,12 @@ def e2e_layout(rng, B, nmsgs, final_nl=True, long_lines=False, first_undated=0, 
             lines[-1] = lines[-1][:-1]
         if not lines[-1]:
             lines[-1] = b"x"
-    return Layout(lines, dated)
+    lay = Layout(lines, dated)
+    lay.tslen = notation_tslen(notation)
+    return lay
 
 
-def boundary_layout(rng, B, first_lines=1, nmsgs=25):
+def boundary_layout(rng, B, first_lines=1, nmsgs=25, notation="iso"):
     """The first `first_lines` one-line messages together end exactly on the last byte of a block of size B; the next
     line starts on byte 0 of the following block and is longer than a block."""
     lines, dated = [], []
@@ -225,7 +257,7 @@ def boundary_layout(rng, B, first_lines=1, nmsgs=25):
     remaining = B
     for j in range(first_lines):
         k += 1
-        ln = ts_for(k) + b" first"
+        ln = ts_head(k, notation) + b" first"
         want = remaining if j == first_lines - 1 else max(len(ln) + 1, remaining // (first_lines - j))
         ln += b"." * max(0, want - len(ln) - 1)
         lines.append(ln + b"\n")
@@ -233,9 +265,11 @@ def boundary_layout(rng, B, first_lines=1, nmsgs=25):
         remaining -= len(lines[-1])
     for m in range(nmsgs):
         k += 1
-        head = ts_for(k) + b" msg=%d " % m
+        head = ts_head(k, notation) + b" msg=%d " % m
         want = rng.choice([B + 22, 2 * B + 1, 150, 3 * B]) if m < 2 else rng.choice([30, 45, B, B + 1, 2 * B])
         head += b"h" * max(0, want - len(head) - 1)
         lines.append(head + b"\n")
         dated.append(True)
-    return Layout(lines, dated)
+    lay = Layout(lines, dated)
+    lay.tslen = notation_tslen(notation)
+    return lay
